@@ -200,9 +200,20 @@ func latticeType[T safemath.Integer](t *testing.T, check string) {
 	stats.Bulk(check, ev, nt, false, map[string]any{"type": ti.name, "lattice_points": len(l)})
 }
 
+// defined types: the Integer constraint of safemath admits every type whose underlying type is one of the eight builtin
+// integer types (amounts, slot indices, ... are declared like this by callers)
+type (
+	namedU8  uint8
+	namedI8  int8
+	namedU16 uint16
+	namedI32 int32
+	namedU64 uint64
+	namedI64 int64
+)
+
 func TestLattice(t *testing.T) {
 	const check = "boundary_lattice"
-	stats.Rule(check, "all pairs of the boundary lattice (0, +-1, +-2, min/max, 2^k, 3*2^k, sqrt(max), max/2, max/3, each +-2 and negated) x {add,sub,mul,div}, and lattice x shifts 0..255, for all eight types, against math/big; distinct by construction; non-trivial as above")
+	stats.Rule(check, "all pairs of the boundary lattice (0, +-1, +-2, min/max, 2^k, 3*2^k, sqrt(max), max/2, max/3, each +-2 and negated) x {add,sub,mul,div}, and lattice x shifts 0..255, for all eight builtin types and six defined types over them (type Amount uint64 style), against math/big; distinct by construction; non-trivial as above")
 	latticeType[int8](t, check)
 	latticeType[uint8](t, check)
 	latticeType[int16](t, check)
@@ -211,6 +222,12 @@ func TestLattice(t *testing.T) {
 	latticeType[uint32](t, check)
 	latticeType[int64](t, check)
 	latticeType[uint64](t, check)
+	latticeType[namedU8](t, check)
+	latticeType[namedI8](t, check)
+	latticeType[namedU16](t, check)
+	latticeType[namedI32](t, check)
+	latticeType[namedU64](t, check)
+	latticeType[namedI64](t, check)
 
 	// 64-bit specials over the lattice
 	ti64, tu64 := infoOf[int64](), infoOf[uint64]()
